@@ -256,7 +256,7 @@ class _ChangeComputer:
         else:
             collector = codeanalyze.ChangeCollector(self.source)
             last_end = -1
-            for match in self.matches:
+            for match in sorted(self.matches, key=lambda m: m.get_region()):
                 start, end = match.get_region()
                 if start < last_end:
                     if not self._is_expression():
